@@ -30,3 +30,6 @@ tick("mp_tick3_t", 3, 7, 2, 3)
 sim("sim_n1", 1, 4, 1, 2, 16)
 sim("sim_n2", 2, 6, 2, 3, 22)
 sim("sim_n3", 3, 7, 2, 3, 26)
+# exhaustive enumeration (BFS over MuxPoolSim: the history is part of the state) of ALL eager behaviours of small pools
+sim("bfs_n1", 1, 2, 1, 1, 12)
+sim("bfs_n2", 2, 3, 1, 1, 16)
